@@ -341,7 +341,10 @@ Definition process (s : stage) (o : nat) : stage :=
 Definition to_wait (s : stage) (prev : name) (o : nat) (timer : bool) : stage :=
   let s1 := set_obj s o (with_timer (obj s o) timer) in
   let cur := match alookup prev (wait s1) with Some l => l | None => [] end in
-  if existsb (fun w => name_eqb (f_name (obj s1 w)) (f_name (obj s1 o))) cur then s1
+  (* a waiter of the same path is REPLACED by the newer object (fix: the staged
+     file is the newer version's by now) *)
+  if existsb (fun w => name_eqb (f_name (obj s1 w)) (f_name (obj s1 o))) cur
+  then set_wait (aset prev (map (fun w => if name_eqb (f_name (obj s1 w)) (f_name (obj s1 o)) then o else w) cur) (wait s1)) s1
   else set_wait (aset prev (cur ++ [o]) (wait s1)) s1.
 
 Definition is_waiting (s : stage) (n : name) : bool :=
@@ -354,7 +357,9 @@ Definition finalize (s : stage) (now : Z) (o : nat) : stage :=
   match nth_error (heap s) o with None => s | Some f0 =>
   let n := f_name f0 in
   let s := lock n s in
-  if negb (cache_state s n =? ST_VALIDATED) then unlock n s
+  (* not validated (any more), or the staged file belongs to another version of
+     the path announced since (fix: compare the hash of the cache entry) *)
+  if negb (cache_state s n =? ST_VALIDATED) || negb (name_eqb (cache_hash s n) (f_hash f0)) then unlock n s
   else
     let s1 := set_obj s o (with_timer (obj s o) false) in
     let f := obj s1 o in
